@@ -13,17 +13,17 @@
    The reconstructed protocol state (pc per thread, lock, ctx, fin) is judged with the predicates
    of Build.tla: ExclusiveOK, IdleOK, DetOK.                                                  *)
 EXTENDS Naturals, Integers, Sequences, FiniteSets, TLC, Json, IOUtils
-Threads == {} Funcs == {} MaxAttempts == 0 ClearOnFail == TRUE ClearOnReadFail == TRUE UseLock == TRUE CtxEarly == FALSE ClearLate == FALSE
-VARIABLES lock, ctx, pc, att, nb, owner, fin, natt, orphans
+Threads == {} Funcs == {} MaxAttempts == 0 ClearOnFail == TRUE ClearOnReadFail == TRUE UseLock == TRUE CtxEarly == FALSE ClearLate == FALSE SharedExtras == FALSE
+VARIABLES lock, ctx, pc, att, nb, owner, fin, natt, orphans, extras
 B == INSTANCE Build
 Traces == JsonDeserialize(IOEnv.VERIF_TRACES)
 VARIABLES tid, l
-tvars == <<lock, ctx, pc, att, nb, owner, fin, natt, orphans, tid, l>>
+tvars == <<lock, ctx, pc, att, nb, owner, fin, natt, orphans, extras, tid, l>>
 
 Ts(tr) == {tr.ev[i].t : i \in 1..Len(tr.ev)} \ {0}
 TInit == /\ tid \in 1..Len(Traces) /\ l = 1
          /\ lock = 0 /\ ctx = 0 /\ pc = [t \in Ts(Traces[tid]) |-> "idle"] /\ fin = {}
-         /\ att = 0 /\ nb = 0 /\ owner = 0 /\ natt = 0 /\ orphans = 0
+         /\ att = 0 /\ nb = 0 /\ owner = 0 /\ natt = 0 /\ orphans = 0 /\ extras = 0
 
 \* result of one event: [why, pc, lock, ctx, fin]
 R(why, p, lk, cx, f) == [why |-> why, pc |-> p, lock |-> lk, ctx |-> cx, fin |-> f]
@@ -57,6 +57,9 @@ Apply(e) ==
                              ELSE R("ok", [pc EXCEPT ![e.t] = "rwant"], lock, ctx, fin)
       [] e.e = "read" -> IF pc[e.t] \notin {"idle", "rwant"} THEN R("recorder:read-while-building", pc, lock, ctx, fin)
                          ELSE R("ok", [pc EXCEPT ![e.t] = "idle"], lock, ctx, fin)
+      \* the variants / metadata dictionaries of a finished definition were mutated in place: no claim here, but every
+      \* later build is still held to the bytes of its program (Deterministic)
+      [] e.e = "annotate" -> R(IF pc[e.t] # "idle" THEN "recorder:annotate-while-building" ELSE "ok", pc, lock, ctx, fin)
       [] e.e = "probe" ->
             IF \E t \in DOMAIN pc : pc[t] # "idle" THEN R("ok", pc, lock, ctx, fin)      \* somebody may be building: no claim
             ELSE IF ~B!IdleOK(IF e.lock_free = 1 THEN 0 ELSE 1, IF e.ctx_none = 1 THEN 0 ELSE 1, pc)
@@ -77,10 +80,10 @@ Step == /\ l >= 1 /\ l <= Len(Traces[tid].ev)
            THEN /\ pc' = r.pc /\ lock' = r.lock /\ ctx' = r.ctx /\ fin' = r.fin /\ l' = l + 1
            ELSE /\ PrintT(<<"REJ", Traces[tid].id, l, r.why>>)
                 /\ l' = 0 /\ UNCHANGED <<pc, lock, ctx, fin>>
-        /\ UNCHANGED <<tid, att, nb, owner, natt, orphans>>
+        /\ UNCHANGED <<tid, att, nb, owner, natt, orphans, extras>>
 Done == /\ l = Len(Traces[tid].ev) + 1
         /\ PrintT(<<"ACC", Traces[tid].id>>)
-        /\ l' = 0 - 1 /\ UNCHANGED <<lock, ctx, pc, att, nb, owner, fin, natt, orphans, tid>>
+        /\ l' = 0 - 1 /\ UNCHANGED <<lock, ctx, pc, att, nb, owner, fin, natt, orphans, extras, tid>>
 TNext == Step \/ Done
 TSpec == TInit /\ [][TNext]_tvars
 =============================================================================
